@@ -665,7 +665,14 @@ def _check_own_answer(run, repo, world, folder):
     run.ob("R-OWN-ANSWER", HID + ".tridonic._handle_read#responses-only",
            only_resp and nsite >= 1, "only MODE_RESPONSE reports may be "
            "routed to waiting senders", where(mod, fn2))
-    # LUBA / SCI: flush precedes the write, answer awaited after, same lock
+    check_serial_order(run, repo, world)
+
+
+def check_serial_order(run, repo, world, rule="R-OWN-ANSWER"):
+    """LUBA / SCI: flush precedes the write, answer awaited after, all under
+    the transaction lock (shared with C17: a stale answer left in the queue
+    by a caller that gave up is another command's data)."""
+    RULE = rule
     mod = repo.mod(SER)
     for cq in (SER + ".DriverLubaRs232", SER + ".DriverSCIRS232"):
         owner, fn = _fn(world, cq, "send")
@@ -695,13 +702,13 @@ def _check_own_answer(run, repo, world, folder):
             for n in (nf, nt, nr):
                 ok = ok and all(("held", "transaction_lock") in w or (
                     "cond", "in_transaction", True) in w for w in W.at(n))
-        run.ob("R-OWN-ANSWER", Q, ok,
+        run.ob(RULE, Q, ok,
                "stale-answer flush, transmission and answer wait must follow "
                "each other inside the transaction-lock region", where(mod, fn))
         # the answer window is bounded
         okw = any("asyncio.wait_for" in unparse(n.ast) and "timeout_rx" in
                   unparse(n.ast) for k, n in seq if k == "rx")
-        run.ob("R-OWN-ANSWER", Q + "#bounded-wait", okw,
+        run.ob(RULE, Q + "#bounded-wait", okw,
                "the answer wait must be bounded by timeout_rx", where(mod, fn))
 
 
